@@ -132,9 +132,30 @@ func runC06(c *core.Ctx) {
 			o.invariants()
 		}
 		for _, ag := range []*rig.AgentH{d.A, d.B} {
-			if ag.LastState() == ice.ConnectionStateFailed {
-				c.Probe("failed-after-connected")
+			if ag.LastState() != ice.ConnectionStateFailed {
+				continue
 			}
+			c.Probe("failed-after-connected")
+			// a late trickled candidate reaches the failed agent; the Restart that follows ends that generation
+			late, err := ice.NewCandidateHost(&ice.CandidateHostConfig{Network: "udp", Address: "10.0.9.99", Port: 9999, Component: 1})
+			if err != nil {
+				continue
+			}
+			_ = ag.A.AddRemoteCandidate(late)
+			d.S.Settle()
+			uf, pw := rig.Creds(ag.Name, 7)
+			if err := ag.A.Restart(uf, pw); err != nil {
+				c.Failf("harness/restart", "%v", err)
+				return
+			}
+			ag.Ufrag, ag.Pwd = uf, pw
+			d.S.Settle()
+			s := rig.TakeSnap(ag)
+			if len(s.Pairs) != 0 || len(s.Locals) != 0 || len(s.Remotes) != 0 || s.Selected != "" {
+				c.Failf("C06/restart-residue", "%s after Restart from Failed (a remote candidate had arrived while Failed): %d pairs, %d local, %d remote candidates, selected=%q", ag.Name, len(s.Pairs), len(s.Locals), len(s.Remotes), s.Selected)
+				return
+			}
+			c.Probe("restart-from-failed-clean")
 		}
 		return
 	}
